@@ -126,11 +126,16 @@ FirstTok(v) ==
 (*   _  underscore        E  a non-ASCII letter (U+00E9, two bytes in &str)                       *)
 (*   S space  T tab  N line feed  R carriage return  V vertical tab  F form feed                  *)
 (*   X U+0085 next line   L U+2028 line separator   P U+2029 paragraph separator   + punctuation   *)
-DigVal(t) == CASE t = "0" -> 0 [] t = "1" -> 1 [] t = "7" -> 7 [] t = "9" -> 9 [] t = "a" -> 10 [] t = "f" -> 15 [] t = "z" -> 35 [] OTHER -> 99
+(*   boundary characters: g (first letter that is no hex digit), A (an upper-case letter, digit 10 of large   *)
+(*   radices), @ ` / : (the ASCII neighbours of A, a, 0, 9: no digits, no letters), H U+00A0 no-break space   *)
+(*   and I U+3000 ideographic space (Unicode whitespace, neither inline nor ASCII), K U+200B zero width       *)
+(*   space (NOT whitespace), M U+0663 an Arabic-Indic digit (XID_Continue, no digit of any radix)             *)
+DigVal(t) == CASE t = "0" -> 0 [] t = "1" -> 1 [] t = "7" -> 7 [] t = "9" -> 9 [] t = "a" -> 10 [] t = "f" -> 15 [] t = "z" -> 35
+                 [] t = "g" -> 16 [] t = "A" -> 10 [] OTHER -> 99
 ClsNewline == {"N", "R", "V", "F", "X", "L", "P"}
 ClsInlineWs == {"S", "T"}
-ClsWs == ClsInlineWs \cup ClsNewline
-ClsAsciiLetter == {"a", "f", "z"}
+ClsWs == ClsInlineWs \cup ClsNewline \cup {"H", "I"}
+ClsAsciiLetter == {"a", "f", "z", "g", "A"}
 ClsDigitChars == {"0", "1", "7", "9"}
 InClass(cls, t) ==
   CASE cls = "ws" -> t \in ClsWs
@@ -139,7 +144,7 @@ InClass(cls, t) ==
     [] cls = "aidstart" -> t \in ClsAsciiLetter \cup {"_"}
     [] cls = "aidcont" -> t \in ClsAsciiLetter \cup {"_"} \cup ClsDigitChars
     [] cls = "uidstart" -> t \in ClsAsciiLetter \cup {"_", "E"}
-    [] cls = "uidcont" -> t \in ClsAsciiLetter \cup {"_", "E"} \cup ClsDigitChars
+    [] cls = "uidcont" -> t \in ClsAsciiLetter \cup {"_", "E", "M"} \cup ClsDigitChars
     [] cls = "dig2" -> DigVal(t) < 2 [] cls = "dig8" -> DigVal(t) < 8 [] cls = "dig10" -> DigVal(t) < 10
     [] cls = "dig16" -> DigVal(t) < 16 [] cls = "dig36" -> DigVal(t) < 36
     [] cls = "nz2" -> DigVal(t) < 2 /\ t # "0" [] cls = "nz8" -> DigVal(t) < 8 /\ t # "0" [] cls = "nz10" -> DigVal(t) < 10 /\ t # "0"
